@@ -117,23 +117,98 @@ def selectRows : List Bool → List (List Nat) → List (List Nat) → List (Lis
 def relevant (seqs : List (List Nat)) (ivs : List Iv) : List (List Nat) :=
   ivs.map (fun iv => slice (seqs.getD iv.chrom []) iv)
 
-/-- `get_strand_specific_sequences`: slice, reverse-complement everything, keep the reverse
-complement where `strand == '-'` -/
-def strandSpecific (T : Tab) (seqs : List (List Nat)) (ivs : List Iv) : Option (List (List Nat)) :=
-  let rel := relevant seqs ivs
-  (revcompRagged T rel).map (fun rc => selectRows (ivs.map (fun iv => iv.strand == 45)) rc rel)
+/-- a ragged view into flat data: row `i` is `data[starts[i] : starts[i] + lens[i]]` -/
+structure View where
+  starts : List Nat
+  lens : List Nat
 
-/-- `GenomicSequence.extract_intervals(stranded=True)`: keep the forward slice where
-`strand == '+'`, else the reverse complement -/
+/-- `encoded_array[starts:stops]` with array bounds: npstructures builds the view
+`(starts, stops - starts)` -/
+def View.ofBounds (ivs : List Iv) : View :=
+  { starts := ivs.map (·.start), lens := ivs.map (fun iv => iv.stop - iv.start) }
+
+/-- materialise a view (`ravel()` copies the rows out in order) -/
+def View.extract (data : List Nat) : List Nat → List Nat → List (List Nat)
+  | s :: ss, l :: ls => (data.drop s).take l :: View.extract data ss ls
+  | _, _ => []
+
+/-- Python `seq[start:stop]` for non-negative ints (`GenomicSequenceDict._extract_intervals`) -/
+def pySliceNat (seq : List Nat) (start stop : Nat) : List Nat := (seq.take stop).drop start
+
+/-- `np.repeat(row_mask, lengths)` -/
+def expandMask : List Bool → List Nat → List Bool
+  | m :: ms, l :: ls => List.replicate l m ++ expandMask ms ls
+  | _, _ => []
+
+/-- flat `np.where(mask, x, y)` on equally long operands -/
+def whereFlat : List Bool → List Nat → List Nat → List Nat
+  | m :: ms, x :: xs, y :: ys => (if m then x else y) :: whereFlat ms xs ys
+  | _, _, _ => []
+
+/-- `where_rows(row_mask, if_true, if_false)`: ragged mask `RaggedArray(np.repeat(row_mask,
+if_true.lengths), if_true.lengths)`, then npstructures `where` on the raveled operands, re-wrapped
+with the mask's shape -/
+def whereRows (mask : List Bool) (a b : List (List Nat)) : List (List Nat) :=
+  let lens := a.map List.length
+  unflatten lens (whereFlat (expandMask mask lens) a.flatten b.flatten)
+
+/-- `get_strand_specific_sequences`: ragged-slice the one sequence by the interval bounds,
+reverse-complement everything, `where_rows(strand == '-', reverse complement, forward)` -/
+def strandSpecific (T : Tab) (seqs : List (List Nat)) (ivs : List Iv) : Option (List (List Nat)) :=
+  let v := View.ofBounds ivs
+  let rel := View.extract (seqs.getD 0 []) v.starts v.lens
+  (revcompRagged T rel).map (fun rc => whereRows (ivs.map (fun iv => iv.strand == 45)) rc rel)
+
+/-- `GenomicSequence.extract_intervals(stranded=True)` over a sequence dict: one Python slice per
+interval, `where_rows(strand == '+', forward, reverse complement)` -/
 def extractStranded (T : Tab) (seqs : List (List Nat)) (ivs : List Iv) : Option (List (List Nat)) :=
-  let rel := relevant seqs ivs
-  (revcompRagged T rel).map (fun rc => selectRows (ivs.map (fun iv => iv.strand == 43)) rel rc)
+  let rel := ivs.map (fun iv => pySliceNat (seqs.getD iv.chrom []) iv.start iv.stop)
+  (revcompRagged T rel).map (fun rc => whereRows (ivs.map (fun iv => iv.strand == 43)) rel rc)
+
+/-! #### transcript sequences (`sequence/genes.py`) -/
+
+/-- one exon row as `get_transcript_sequences` reads it -/
+structure Exon where
+  tid : Nat
+  strand : Nat
+  start : Nat
+  stop : Nat
+
+/-- `itertools.groupby(exon_entries, key=transcript_id)`: maximal runs of equal ids, in order -/
+def groupRuns : List Exon → List (List Exon)
+  | [] => []
+  | e :: es =>
+    match groupRuns es with
+    | [] => [[e]]
+    | g :: gs => if (g.head?.map (·.tid)) == some e.tid then (e :: g) :: gs else [e] :: g :: gs
+
+def exonSlice (ref : List Nat) (e : Exon) : List Nat := (ref.drop e.start).take (e.stop - e.start)
+
+/-- `get_transcript_sequences`: ragged-slice the reference by the exon bounds, ravel, re-wrap by
+the per-transcript sums of `stop - start`, reverse-complement everything,
+`where_rows(strand of the first exon == '-', reverse complement, forward)` -/
+def transcriptSeqs (T : Tab) (ref : List Nat) (exons : List Exon) : Option (List (List Nat)) :=
+  let flat := (View.extract ref (exons.map (·.start)) (exons.map (fun e => e.stop - e.start))).flatten
+  let groups := groupRuns exons
+  let lens := groups.map (fun g => (g.map (fun e => e.stop - e.start)).sum)
+  let ts := unflatten lens flat
+  let neg := groups.map (fun g => (g.head?.map (·.strand)) == some 45)
+  (revcompRagged T ts).map (fun rc => whereRows neg rc ts)
+
+/-- per transcript: the exon slices joined in order, reverse-complemented as a whole for `-` -/
+def specTranscripts (ref : Bytes) (exons : List Exon) : List Bytes :=
+  (groupRuns exons).map (fun g =>
+    let s := (g.map (exonSlice ref)).flatten
+    if (g.head?.map (·.strand)) == some 45 then specRevComp s else s)
 
 /-- the shipped row selection went through npstructures' `where` with a column mask, which is
 only broadcast when it has fewer entries than the data: with at least as many intervals as
 extracted letters the call raised. Kept for the recorded refutation. -/
 def strandSpecificOld (T : Tab) (seqs : List (List Nat)) (ivs : List Iv) : Option (List (List Nat)) :=
-  if ivs.length < (relevant seqs ivs).flatten.length then strandSpecific T seqs ivs else none
+  if ivs.length < (relevant seqs ivs).flatten.length then
+    (revcompRagged T (relevant seqs ivs)).map
+      (fun rc => selectRows (ivs.map (fun iv => iv.strand == 45)) rc (relevant seqs ivs))
+  else none
 
 def specStrand (seqs : List Bytes) (ivs : List Iv) : List Bytes :=
   ivs.map (fun iv => if iv.strand == 43 then slice (seqs.getD iv.chrom []) iv
